@@ -364,6 +364,19 @@ for t in range(NSC):
                     fail(d, x0_copy, kw, 'obj does not survive the JSON round trip: %r -> %r' % (s.obj, back.obj))
                 if str(s) != str(back):
                     fail(d, x0_copy, kw, 'str() of the reloaded object differs')
+                ta, tb = s.diagnostic_info, back.diagnostic_info
+                if (ta is None) != (tb is None):
+                    fail(d, x0_copy, kw, 'diagnostic table present on one side of the JSON round trip only (replace_nan=%s)' % rn)
+                if ta is not None:
+                    if list(ta.columns) != list(tb.columns) or len(ta) != len(tb):
+                        fail(d, x0_copy, kw, 'diagnostic table changes shape in the JSON round trip: %d x %d -> %d x %d' % (len(ta), len(ta.columns), len(tb), len(tb.columns)))
+                    for col in ta.columns:
+                        try:
+                            same = np.array_equal(np.asarray(ta[col], dtype=float), np.asarray(tb[col], dtype=float), equal_nan=True)
+                        except (TypeError, ValueError):
+                            same = list(ta[col]) == list(tb[col])
+                        if not same:
+                            fail(d, x0_copy, kw, 'column %s of the diagnostic table (%d rows) is not reproduced in order by the JSON round trip (replace_nan=%s)' % (col, len(ta), rn))
         except SystemExit:
             raise
         except Exception as e:  # noqa
